@@ -75,8 +75,19 @@ def static_scan():
     for fn in sorted(os.listdir(src)):
         if not re.search(r"\.(cc|hh|yy|ll)$", fn) or fn.startswith("test-") or fn == "dwgrep-gendoc.cc":
             continue
+        guarded = 0        # depth inside #ifdef DWGREP_VERIF (the verification hooks are not part of the product)
+        depth = []
         for n, line in enumerate(open(os.path.join(src, fn), errors="replace"), 1):
             l = line.strip()
+            if re.match(r"#\s*if", l):
+                depth.append("DWGREP_VERIF" in l)
+                guarded += depth[-1]
+                continue
+            if re.match(r"#\s*endif", l) and depth:
+                guarded -= depth.pop()
+                continue
+            if guarded:
+                continue
             if re.match(r"mutable\b", l):
                 found.append("%s: %s" % (fn, re.sub(r"\s+", " ", l)[:80]))
                 continue
